@@ -43,6 +43,7 @@ type e1Cfg struct {
 	DensePct     int  // percent of (unkeyed) histories that start from a dense multi-block layout with holes only beyond block 0
 	TailPct      int  // percent of restore cycles whose snapshot is taken while transactions commit (non-empty log tail)
 	Interlope    bool // C02: other transactions commit while the observed transaction is in flight
+	FlakyLogPct  int  // percent of histories whose logger reports an error on every 2nd..4th Append (after recording it)
 }
 
 var allCaps = []int{1, 63, 64, 65, 1000, 16384, 16385, 40000}
@@ -128,6 +129,10 @@ func runHistory(w *W, idx int, cfg e1Cfg) {
 	h.interlopers = cfg.Interlope && h.rng.Intn(2) == 0
 	h.wd = newWorld(capacity, cfg.Twin && !h.interlopers, cfg.Replica) // the twin cannot follow offsets handed out beside in-flight reservations
 	h.wd.Keys = h.g.keys
+	if cfg.FlakyLogPct > 0 && h.rng.Intn(100) < cfg.FlakyLogPct && h.wd.Log != nil {
+		h.wd.Log.failEvery = int64(2 + h.rng.Intn(3))
+		h.stats["histories_with_failing_logger"]++
+	}
 	defer h.wd.Close()
 	defer func() {
 		if p := recover(); p != nil {
